@@ -154,8 +154,19 @@ def discarded_exceptions(fi):
     return out
 
 
-def same_term(ob, found, expected, what, where=None):
-    """R-TERM comparison with diagnosis."""
+def vocabulary(t):
+    return {x[1] for x in T.walk(t) if T.is_op(x)}
+
+
+def same_term(ob, found, expected, what, where=None, vocab=None):
+    """R-TERM comparison with diagnosis.  With `vocab` (a set of operator names): a differing term that
+    uses operators outside it is an unknown re-expression (UNDECIDED), not a violation."""
+    if vocab is not None and found is not None and found != expected:
+        extra = vocabulary(found) - set(vocab) - vocabulary(expected)
+        if extra and not T.opaques(found):
+            ob.undecided('%s: expressed with operators outside the recognised vocabulary (%s); equivalence not decided'
+                         % (what, ', '.join(sorted(extra))), where)
+            return False
     if found == expected:
         return ob.require(True, what, where)
     if found is not None and expected is not None and (T.phi_conditions(found) or T.phi_conditions(expected)):
